@@ -744,7 +744,9 @@ func (h *c13Hist) check() {
 				if a.Ret >= b.Call {
 					continue
 				}
-				if c13Stage(b.State) < c13Stage(a.State) && a.State == 3 && a.Detail == "Locally Cancelled" {
+				if c13Stage(b.State) < c13Stage(a.State) && a.State == 3 && a.Detail == "Pending at restart" {
+					h.viol("log:stage-regress:failed-at-restart-then-runner", fmt.Sprintf("unit %s was reported in state %d (%q) and later in state %d (%q)", id, a.State, a.Detail, b.State, b.Detail), map[string]any{"earlier": a, "later": b})
+				} else if c13Stage(b.State) < c13Stage(a.State) && a.State == 3 && a.Detail == "Locally Cancelled" {
 					// the same defect as seen in the status-write log (one key for one defect)
 					h.viol("log:stage-regress:cancel-during-submit-remote", fmt.Sprintf("unit %s was reported in state %d (%q) and later in state %d (%q)", id, a.State, a.Detail, b.State, b.Detail), map[string]any{"earlier": a, "later": b})
 				} else if c13Stage(b.State) < c13Stage(a.State) {
